@@ -30,9 +30,10 @@ EXTENDS Integers, FiniteSets, TLC
 
 CONSTANTS Reqs, Files, Handles, Paths, Kinds, InitClosed
 Nil == 0
-ASSUME Nil \notin Reqs /\ Nil \notin Files /\ Nil \notin Handles
+ASSUME Nil \notin Reqs /\ Nil \notin Files /\ Nil \notin Handles /\ Nil \notin Paths
 
 Keys == Kinds \X Paths
+NoKey == <<Nil, Nil>>        \* Nil \notin Paths
 
 VARIABLES
   cache,     \* [Keys -> Files \cup {Nil}]   the four cache maps of inMemoryCacheManager
@@ -49,7 +50,7 @@ VARIABLES
   hst,       \* [Handles -> {"unopened","open","closed"}]
   ccount,    \* [Handles -> Nat]  number of Close calls
   pc,        \* [Reqs -> {"start","miss","have","reading","closing","done"}]
-  rkey,      \* [Reqs -> Keys \cup {Nil}]
+  rkey,      \* [Reqs -> Keys \cup {NoKey}]
   rfile,     \* [Reqs -> Files \cup {Nil}]
   rh,        \* [Reqs -> Handles \cup {Nil}]   handle of the request's bigFileReader
   held,      \* [Reqs -> SUBSET Handles]  opened during the miss phase, not yet closed / attached
@@ -72,7 +73,7 @@ Init ==
   /\ pool = [f \in Files |-> {}] /\ marks = [f \in Files |-> 0] /\ nrel = [f \in Files |-> 0]
   /\ relset = [f \in Files |-> {}]
   /\ hst = [h \in Handles |-> "unopened"] /\ ccount = [h \in Handles |-> 0]
-  /\ pc = [r \in Reqs |-> "start"] /\ rkey = [r \in Reqs |-> Nil]
+  /\ pc = [r \in Reqs |-> "start"] /\ rkey = [r \in Reqs |-> NoKey]
   /\ rfile = [r \in Reqs |-> Nil] /\ rh = [r \in Reqs |-> Nil] /\ held = [r \in Reqs |-> {}]
   /\ badRead = FALSE /\ badClose = FALSE
 
